@@ -16,7 +16,7 @@ let parse_txops n lines =
       match l with x :: t -> take (k-1) t (x :: acc) | [] -> failwith "short tx section" in
   let (ops, rest) = take n lines [] in
   (Stdlib.List.map (fun l -> match l with
-       (* a nil value put is an empty value (what it is after commit); see corpus/C05/d26 *)
+       (* a put of a nil value stores an empty value (Buffer.Put; defect D26 before its repair) *)
        | ["p"; k; "nil"] -> (bytes_of_token k, Some [])
        | ["p"; k; v] -> (bytes_of_token k, Some (bytes_of_token v))
        | ["d"; k] -> (bytes_of_token k, None)
